@@ -251,6 +251,8 @@ def check_family(facts, adt):
     # (iv) rebuilt operands
     agg = aggs[0]
     bad = []
+    graph = None
+    reach_of = {}
     rebuilt = [f for f in fnames if f not in W]
     for j, f in enumerate(fnames):
         if f in W:
@@ -264,7 +266,16 @@ def check_family(facts, adt):
         if op is None or op["k"] not in ("copy", "move"):
             bad.append((f, "is not computed from anything that was read"))
             continue
-        hits = backward_reads(de, op["pl"]["l"], Dd, read_roots)
+        # which reads the operand is computed from: forward data reach in the flow graph of the deserializer and the
+        # local helpers it calls (component-sensitive for tuples, so a helper that rebuilds several prepared
+        # elements at once does not mix them)
+        if graph is None:
+            from ..flow import Graph, DATA
+            graph = Graph(facts, facts.closure([de.id], None), [de.id], None)
+            reach_of = {}
+            for l, k in read_roots.items():
+                reach_of[k] = {st[0] for st in graph.reach([(de.id, l)], kinds=(DATA,), typed=False)}
+        hits = {k for k, nodes in reach_of.items() if (de.id, op["pl"]["l"]) in nodes}
         srcf = {R[k] for k in hits}
         if srcf != {want}:
             bad.append((f, "is rebuilt from %s, expected from %s" % (sorted(x or "?" for x in srcf) or "nothing", want)))
